@@ -374,6 +374,10 @@ func (m *bufMachine) finish() {
 func drawBufShape(t *rapid.T, m *bufMachine) bufOp {
 	slot := rapid.IntRange(0, len(m.faces)-1).Draw(t, "slot")
 	pf := m.pfs[slot]
+	if ps := fontProbes(pf.Ref.File); len(ps) > 0 && rapid.IntRange(0, 9).Draw(t, "probeInput") < 6 {
+		// an input known to exercise one of the font's features / lookups / tables
+		return classIdx.Probes[rapid.SampledFrom(ps).Draw(t, "probe")].bufOp(slot)
+	}
 	text := drawText(t, pf, ev.Scale(16, 40))
 	op := bufOp{Kind: "shape", Slot: slot, Text: text, Length: len(text)}
 	if len(text) > 0 && rapid.IntRange(0, 9).Draw(t, "subRun") < 3 {
